@@ -59,6 +59,21 @@ CLAIMED = {
    text="State = host interpreter bindings, heap, position; action Feed(k) = one REPL input of k statements. Invariants: after p statements the REPL state equals the batch run of the first p statements (last result and all top-level values) whenever both completed, and failures agree. The harness feeds all 1 884 sessions (<= 3 statements from a pool with constants, hidden values, cells, closures, re-declaration, functions, a failing input) in all splits to the real API, compares every prefix on both routes and against the specification, checks that exec() leaves the interpreter's bindings untouched and is repeatable, and that create_call accepts exactly the argument vectors the specification's rule (arity, tag matches parameter) and an in-language call accept, with equal results.",
    design_ref="§3.7, §6 C17",
    note="sessions bounded by MaxLen (3 quick / 4 thorough) over a 12-statement pool; 7 functions x 25 argument vectors for host calls"),
+ "C08": dict(
+   technique="TLA+ specification of 64-bit two's-complement arithmetic on limbs (spec/Int64.tla): TLC proves every limb operator equal to its mathematical definition exhaustively at small widths and checks algebraic laws on the 64-bit boundary grid; grid cases with predictions replayed in eight execution forms (literal/folded, host API, in-language call, half-constant, compound assignment ...); a seeded random stream recorded from the implementation is recomputed by the trace specification Trace_Arith.tla",
+   text="The same module is instantiated at widths 4-8 bits, where TLC compares Add/Sub/Neg/Mul/Div/Mod/Pow/shifts/bitwise/comparisons with the mathematical definitions for ALL operand pairs (and checks the division relation a = q*b + r has a unique solution), and at 64 bits (8 limbs of 8 bits), where it emits the result or documented error for every operator on the boundary grid G x G (24 [56] values incl. MIN, MAX, +-2^32, +-63/64/65). The harness executes each case in the forms the property names (folded literal, run time through arguments and through the host API, compound assignment, half-constant operands) and compares; 7 855 [96 305] random (op, a, b) records over all of i64 are recomputed on limbs by Trace_Arith. Bool operators are truth tables in the spec; float comparisons, -0.0 = 0.0, NaN rules and sign flip are specified on bit patterns.",
+   design_ref="§3.2, §6 C08",
+   note="IEEE-754 results of float + - * / ** cannot be expressed in TLA+: they are compared with the host's f64 (trusted base), and the trace specification only demands that each float operator is a function (memo) across forms"),
+ "C09": dict(
+   technique="TLA+ specification of sequences (spec/Seqs.tla: At, PySlice on extended integers with symbolic MIN/MAX, SliceLen, closed forms); TLC checks the consistency laws (slice/index/len agreement, saturation beyond +-(n+1), splits, compositions) and emits every case; cases replayed in five renderings (folded literal, variables, array literal with a non-constant element, typed and union-typed in-language functions); recorded random runs validated by Trace_Seqs.tla",
+   text="All sequences of length 0-4 [0-6] (strings over 1/2/3/4-byte scalars, mixed arrays) x indices -7..7 plus MIN, MIN+1, MAX, MAX-1 x (start, stop, step) over absent, -6..6 and the extremes (117 912 [333 396] slice cases): TLC checks the laws on the specification and writes value / error kind / kind of result / len; the implementation must agree in every rendering, including membership of the value's run-time type in the program's static type. 1 500 [100 000] recorded runs with lengths to 12 and operands near 2^29 and the i64 extremes are accepted by Trace_Seqs.",
+   design_ref="§3.3, §6 C09",
+   note="i64 extremes are symbolic (min/max + offset) and justified by TLC-checked saturation laws; bounded sequence lengths"),
+ "C19": dict(
+   technique="TLA+ specification of content equality (Seqs!ValEq over a float domain with -0.0, NaN, inf; identity for functions and cells) with producer-expression terms whose denotation is built from the sequence operators; TLC checks symmetry, NaN-free reflexivity, negation, transitivity and ProducersDenote; every (content, producer path) pair replayed as programs and at API level; recorded random comparisons validated by Trace_Eq.tla",
+   text="217 [305] contents x 21 producer paths (literal, + at every split incl. with [], slices, [v; n] incl. n = 0, ~ $], partition sides, ? p $], ? T $], any-typed parameter, union-typed cell, indexing) under 4 wrappers: the specification predicts x == y, x != y, y == x and the selected match arm from content alone (law ProducersDenote); 180 614 [806 412] programs and 423 801 [837 225] API-level comparisons (incl. hidden element types forced through Array::new_with_type) must agree; 3 000 [150 000] recorded random comparisons are recomputed by Trace_Eq.",
+   design_ref="§3.3, §6 C19",
+   note="floats on a modelled domain (no arithmetic involved); contents nested to depth 3"),
 }
 
 NOT_YET = {}
